@@ -26,6 +26,8 @@ C15 = [
  ("M9-first-n-msgs", "violation", [(MOD, "                while let Ok(mut partial_times) = rx.recv() {\n                    times.append(&mut partial_times);\n                }", "                let mut n = 0;\n                while let Ok(mut partial_times) = rx.recv() {\n                    times.append(&mut partial_times);\n                    n += 1;\n                    if n + 1 >= avail_pll && avail_pll > 48 {\n                        break;\n                    }\n                }")], "collector leaves early only with > 48 workers: late senders panic / partitions lost"),
  ("M10-skip-thr-boundary", "violation", [(MOD, "    if avail_pll == 1 || no_parallelism {", "    if date_range.num_days() == 367 && avail_pll == 3 { return BTreeMap::new(); }\n    if avail_pll == 1 || no_parallelism {")], "needle: one (days, workers) pair returns nothing (input-only sensitivity of the swarm)"),
  ("M11-collector-counts-partitions", "violation", [(MOD, "            let (tx, rx) = channel();\n\n            // Spawn thread to combine prayer times for each date range.\n            let handle = s.spawn(move || {\n                let mut times = BTreeMap::new();\n                while let Ok(mut partial_times) = rx.recv() {\n                    times.append(&mut partial_times);\n                }\n                times\n            });\n\n            // Spawn threads to calculate prayer times for each date range.\n            let date_ranges = date_range.partition(avail_pll);", "            let (tx, rx) = channel();\n            let date_ranges = date_range.partition(avail_pll);\n            let mut pending = date_ranges.len();\n\n            // Spawn thread to combine prayer times for each date range.\n            let handle = s.spawn(move || {\n                let mut times = BTreeMap::new();\n                while pending > 0 {\n                    if let Ok(mut partial_times) = rx.recv_timeout(std::time::Duration::from_millis(20)) {\n                        times.append(&mut partial_times);\n                        pending -= 1;\n                    }\n                }\n                times\n            });\n")], "collector waits for exactly one message per partition, polling with a timeout: correct while every worker can be spawned, never terminates when a thread creation fails (only the spawn-failure leg sees it)"),
+ ("M12-collector-deadline", "violation", [(MOD, "use std::{\n    collections::{BTreeMap, HashMap},\n    fmt::Display,\n    sync::mpsc::channel,\n    thread::{self},\n};", "use std::{\n    collections::{BTreeMap, HashMap},\n    fmt::Display,\n    sync::mpsc::{channel, TryRecvError},\n    thread::{self},\n    time::{Duration, Instant},\n};"), (MOD, "                while let Ok(mut partial_times) = rx.recv() {\n                    times.append(&mut partial_times);\n                }", "                let deadline = Instant::now() + Duration::from_secs(30);\n                loop {\n                    match rx.try_recv() {\n                        Ok(mut partial_times) => times.append(&mut partial_times),\n                        Err(TryRecvError::Disconnected) => break,\n                        Err(TryRecvError::Empty) => {\n                            if Instant::now() > deadline {\n                                break;\n                            }\n                            thread::yield_now();\n                        }\n                    }\n                }"), (MOD, "                    tx.send(partial_times).unwrap();", "                    tx.send(partial_times).ok();")], "collector polls and gives up after a 30 s deadline ('stay responsive'): partial map when a thread is stalled for longer - visible only on the simulated clock"),
+ ("N5-deadline-correct", "held", [(MOD, "use std::{\n    collections::{BTreeMap, HashMap},\n    fmt::Display,\n    sync::mpsc::channel,\n    thread::{self},\n};", "use std::{\n    collections::{BTreeMap, HashMap},\n    fmt::Display,\n    sync::mpsc::{channel, TryRecvError},\n    thread::{self},\n    time::{Duration, Instant},\n};"), (MOD, "                while let Ok(mut partial_times) = rx.recv() {\n                    times.append(&mut partial_times);\n                }", "                let mut last_report = Instant::now();\n                let mut slow = 0u32;\n                loop {\n                    match rx.try_recv() {\n                        Ok(mut partial_times) => times.append(&mut partial_times),\n                        Err(TryRecvError::Disconnected) => break,\n                        Err(TryRecvError::Empty) => {\n                            if last_report.elapsed() > Duration::from_secs(30) {\n                                slow += 1;\n                                last_report = Instant::now();\n                            }\n                            thread::yield_now();\n                        }\n                    }\n                }\n                let _ = slow;")], "negative control: polling collector that only *notes* slowness on the clock and still waits for the channel to close"),
  ("N1-threshold-le", "held", [(MOD, "date_range.num_days() / avail_pll < min_days_for_pll", "date_range.num_days() / avail_pll <= min_days_for_pll")], "negative control: other path, same result"),
  ("N2-partition-plus-one", "held", [(MOD, "date_range.partition(avail_pll);", "date_range.partition(avail_pll + 1);")], "negative control: one more partition, same result"),
  ("N4-std-condvar-full-paths", "harness-error", [(MOD, "            // Close channel to terminate blocking channel receive loop.\n            drop(tx);\n\n            handle.join().unwrap()", "            drop(tx);\n            let done = std::sync::Arc::new((std::sync::Mutex::new(false), std::sync::Condvar::new()));\n            let done2 = done.clone();\n            let waiter = s.spawn(move || {\n                let r = handle.join().unwrap();\n                *done2.0.lock().unwrap() = true;\n                done2.1.notify_all();\n                r\n            });\n            let mut g = done.0.lock().unwrap();\n            while !*g {\n                g = done.1.wait(g).unwrap();\n            }\n            drop(g);\n            waiter.join().unwrap()")], "CORRECT code that blocks on a real std Condvar reached through full paths: the simulator cannot schedule it (stall), the Miri confirmation shows the un-hooked code is fine -> harness error (exit 2), never a VIOLATION"),
